@@ -21,12 +21,10 @@ package main
 import (
 	"bufio"
 	"bytes"
-	"context"
 	"fmt"
 	"io"
 	"log"
 	"net"
-	"path/filepath"
 	"sort"
 	"strconv"
 	"strings"
@@ -34,12 +32,7 @@ import (
 	"testing"
 	"time"
 
-	NoKV "github.com/feichai0017/NoKV"
 	pbt "github.com/feichai0017/NoKV/cmd/nokv-redis/zzverifpbt"
-	"github.com/feichai0017/NoKV/pb"
-	"github.com/feichai0017/NoKV/pd/tso"
-	"github.com/feichai0017/NoKV/raftstore/client"
-	rkv "github.com/feichai0017/NoKV/raftstore/kv"
 	"pgregory.net/rapid"
 )
 
@@ -86,184 +79,6 @@ func (o vfOp) effect() int64 {
 		return -o.Delta
 	}
 	return 0
-}
-
-// ------------------------------------------- raft flavour of the gateway ----
-
-// vfPercClient implements the gateway's raftClient interface on top of the real
-// command applier of the raft store (raftstore/kv.Apply over a real Percolator
-// database) for a single region.  It is a transcription of raftstore/client.Client
-// (BatchGet / TwoPhaseCommit / CheckTxnStatus / ResolveLocks) minus routing.  Write
-// commands are applied one at a time, as the region's raft apply loop does; reads
-// run concurrently after them, as store.ReadCommand does.
-type vfPercClient struct {
-	db    *NoKV.DB
-	apply sync.Mutex
-}
-
-func (c *vfPercClient) propose(req *pb.Request) (*pb.Response, error) {
-	c.apply.Lock()
-	defer c.apply.Unlock()
-	resp, err := rkv.Apply(c.db, &pb.RaftCmdRequest{Header: &pb.CmdHeader{RegionId: 1}, Requests: []*pb.Request{req}})
-	if err != nil {
-		return nil, err
-	}
-	if len(resp.GetResponses()) != 1 {
-		return nil, fmt.Errorf("harness: %d responses", len(resp.GetResponses()))
-	}
-	return resp.GetResponses()[0], nil
-}
-
-func (c *vfPercClient) BatchGet(ctx context.Context, keys [][]byte, version uint64) (map[string]*pb.GetResponse, error) {
-	out := make(map[string]*pb.GetResponse, len(keys))
-	if len(keys) == 0 {
-		return out, nil
-	}
-	// client.BatchGet de-duplicates keys through a map
-	uniq := map[string][]byte{}
-	var order []string
-	for _, k := range keys {
-		if _, ok := uniq[string(k)]; !ok {
-			order = append(order, string(k))
-		}
-		uniq[string(k)] = append([]byte(nil), k...)
-	}
-	req := &pb.RaftCmdRequest{Header: &pb.CmdHeader{RegionId: 1}}
-	for _, id := range order {
-		req.Requests = append(req.Requests, &pb.Request{CmdType: pb.CmdType_CMD_GET,
-			Cmd: &pb.Request_Get{Get: &pb.GetRequest{Key: uniq[id], Version: version}}})
-	}
-	resp, err := rkv.Apply(c.db, req)
-	if err != nil {
-		return nil, err // kv.Service turns this into codes.Internal
-	}
-	for i, id := range order {
-		var g *pb.GetResponse
-		if i < len(resp.GetResponses()) && resp.GetResponses()[i] != nil {
-			g = resp.GetResponses()[i].GetGet()
-		}
-		if g == nil {
-			g = &pb.GetResponse{NotFound: true}
-		}
-		out[id] = g
-	}
-	return out, nil
-}
-
-func (c *vfPercClient) Mutate(ctx context.Context, primary []byte, mutations []*pb.Mutation, startVersion, commitVersion, lockTTL uint64) error {
-	if len(primary) == 0 {
-		return fmt.Errorf("client: primary key required")
-	}
-	var muts []*pb.Mutation
-	var keys [][]byte
-	hasPrimary := false
-	for _, m := range mutations {
-		if m == nil {
-			continue
-		}
-		muts = append(muts, &pb.Mutation{Op: m.Op, Key: append([]byte(nil), m.Key...), Value: append([]byte(nil), m.Value...)})
-		keys = append(keys, append([]byte(nil), m.Key...))
-		if bytes.Equal(m.Key, primary) {
-			hasPrimary = true
-		}
-	}
-	if len(muts) == 0 {
-		return nil
-	}
-	if !hasPrimary {
-		return fmt.Errorf("client: primary key %q not present in mutations", primary)
-	}
-	r, err := c.propose(&pb.Request{CmdType: pb.CmdType_CMD_PREWRITE, Cmd: &pb.Request_Prewrite{Prewrite: &pb.PrewriteRequest{
-		Mutations: muts, PrimaryLock: append([]byte(nil), primary...), StartVersion: startVersion, LockTtl: lockTTL}}})
-	if err != nil {
-		return err
-	}
-	if pr := r.GetPrewrite(); pr != nil && len(pr.GetErrors()) > 0 {
-		return &client.KeyConflictError{Errors: pr.GetErrors()}
-	}
-	r, err = c.propose(&pb.Request{CmdType: pb.CmdType_CMD_COMMIT, Cmd: &pb.Request_Commit{Commit: &pb.CommitRequest{
-		Keys: keys, StartVersion: startVersion, CommitVersion: commitVersion}}})
-	if err != nil {
-		return err
-	}
-	if cr := r.GetCommit(); cr != nil && cr.GetError() != nil {
-		return fmt.Errorf("client: commit key error: %v", cr.GetError())
-	}
-	return nil
-}
-
-func (c *vfPercClient) CheckTxnStatus(ctx context.Context, primary []byte, lockVersion, currentTS uint64) (*pb.CheckTxnStatusResponse, error) {
-	r, err := c.propose(&pb.Request{CmdType: pb.CmdType_CMD_CHECK_TXN_STATUS, Cmd: &pb.Request_CheckTxnStatus{CheckTxnStatus: &pb.CheckTxnStatusRequest{
-		PrimaryKey: append([]byte(nil), primary...), LockTs: lockVersion, CurrentTs: currentTS, CallerStartTs: currentTS,
-		RollbackIfNotExist: true, CurrentTime: uint64(time.Now().Unix())}}})
-	if err != nil {
-		return nil, err
-	}
-	return r.GetCheckTxnStatus(), nil
-}
-
-func (c *vfPercClient) ResolveLocks(ctx context.Context, startVersion, commitVersion uint64, keys [][]byte) (uint64, error) {
-	if len(keys) == 0 {
-		return 0, nil
-	}
-	cp := make([][]byte, len(keys))
-	for i, k := range keys {
-		cp[i] = append([]byte(nil), k...)
-	}
-	r, err := c.propose(&pb.Request{CmdType: pb.CmdType_CMD_RESOLVE_LOCK, Cmd: &pb.Request_ResolveLock{ResolveLock: &pb.ResolveLockRequest{
-		StartVersion: startVersion, CommitVersion: commitVersion, Keys: cp}}})
-	if err != nil {
-		return 0, err
-	}
-	if out := r.GetResolveLock(); out != nil {
-		if ke := out.GetError(); ke != nil {
-			return 0, fmt.Errorf("client: resolve lock key error: %v", ke)
-		}
-		return out.GetResolvedLocks(), nil
-	}
-	return 0, nil
-}
-
-func (c *vfPercClient) Close() error { return nil }
-
-// vfTSO adapts the real PD timestamp allocator to the gateway's timestampAllocator.
-type vfTSO struct{ a *tso.Allocator }
-
-func (t vfTSO) Reserve(n uint64) (uint64, error) {
-	if n == 0 {
-		return 0, fmt.Errorf("tso reserve: n must be >= 1")
-	}
-	first, got, err := t.a.Reserve(n)
-	if err != nil {
-		return 0, err
-	}
-	if got < n {
-		return 0, fmt.Errorf("tso reserve: requested %d timestamps, got %d", n, got)
-	}
-	return first, nil
-}
-
-// vfStartRaft starts the gateway with the raft backend over the harness client.
-// The Percolator database is opened the way `nokv serve` opens a store's database.
-func vfStartRaft(dir string) (string, func(), error) {
-	opt := NoKV.NewDefaultOptions()
-	opt.WorkDir = filepath.Join(dir, "store")
-	ln, err := net.Listen("unix", filepath.Join(dir, "s"))
-	if err != nil {
-		return "", nil, err
-	}
-	db := NoKV.Open(opt)
-	backend := &raftBackend{client: &vfPercClient{db: db}, ts: vfTSO{a: tso.NewAllocator(1)}}
-	srv := newServer(backend)
-	done := make(chan struct{})
-	go func() { _ = srv.Serve(ln); close(done) }()
-	stop := func() {
-		_ = ln.Close()
-		<-done
-		srv.Wait()
-		_ = db.Close()
-	}
-	return ln.Addr().String(), stop, nil
 }
 
 // -------------------------------------------------------------- running ----
